@@ -280,7 +280,7 @@ ini_sect_find(const ini_p ini, const uint8_t *sect_name,
 	size_t i = 0, name_size;
 	const uint8_t *name;
 
-	if (NULL == ini || (NULL != sect_name && 0 == sect_name_size))
+	if (NULL == ini || NULL == sect_name) /* Empty name ("[]") is a name. */
 		return (INI_OFFSET_INVALID);
 	if (NULL == ini->lines)
 		return (INI_OFFSET_INVALID);
@@ -301,7 +301,7 @@ ini_sect_findi(const ini_p ini, const uint8_t *sect_name,
 	size_t i = 0, name_size;
 	const uint8_t *name;
 
-	if (NULL == ini || (NULL != sect_name && 0 == sect_name_size))
+	if (NULL == ini || NULL == sect_name) /* Empty name ("[]") is a name. */
 		return (INI_OFFSET_INVALID);
 	if (NULL == ini->lines)
 		return (INI_OFFSET_INVALID);
@@ -361,48 +361,82 @@ ini_sect_val_enum(const ini_p ini, const size_t sect_off, size_t *val_off,
 size_t
 ini_sect_val_find(const ini_p ini, const size_t sect_off,
     const uint8_t *val_name, const size_t val_name_size) {
-	size_t i = 0, name_size;
+	size_t i = 0, name_size, found = INI_OFFSET_INVALID;
 	const uint8_t *name;
 
-	if (NULL == ini || NULL == val_name || 0 == val_name_size ||
+	if (NULL == ini || NULL == val_name || /* Empty name ("=val") is a name. */
 	    INI_OFFSET_INVALID == sect_off)
 		return (INI_OFFSET_INVALID);
 	if (NULL == ini->lines)
 		return (INI_OFFSET_INVALID);
 
-	/* Look for value. */
+	/* Look for value: the last record win (most recent parsed). */
 	while (0 == ini_sect_val_enum(ini, sect_off, &i, &name, &name_size, NULL, NULL)) {
-		if (0 == mem_cmpn(name, name_size, val_name, val_name_size))
-			return (i); /* Found! */
+		if (0 == mem_cmpn(name, name_size, val_name, val_name_size)) {
+			found = i; /* Found! */
+		}
 		i ++;
 	}
 
-	return (INI_OFFSET_INVALID);
+	return (found);
 }
 
 size_t
 ini_sect_val_findi(const ini_p ini, const size_t sect_off,
     const uint8_t *val_name, const size_t val_name_size) {
-	size_t i = 0, name_size;
+	size_t i = 0, name_size, found = INI_OFFSET_INVALID;
 	const uint8_t *name;
 
-	if (NULL == ini || NULL == val_name || 0 == val_name_size ||
+	if (NULL == ini || NULL == val_name || /* Empty name ("=val") is a name. */
 	    INI_OFFSET_INVALID == sect_off)
 		return (INI_OFFSET_INVALID);
 	if (NULL == ini->lines)
 		return (INI_OFFSET_INVALID);
 
-	/* Look for value. */
+	/* Look for value: the last record win (most recent parsed). */
 	while (0 == ini_sect_val_enum(ini, sect_off, &i,
 	    &name, &name_size, NULL, NULL)) {
-		if (0 == mem_cmpin(name, name_size, val_name, val_name_size))
-			return (i); /* Found! */
+		if (0 == mem_cmpin(name, name_size, val_name, val_name_size)) {
+			found = i; /* Found! */
+		}
 		i ++;
 	}
 
-	return (INI_OFFSET_INVALID);
+	return (found);
 }
 
+/* The same section name may be in store many times (parsed twice, or
+ * section continued later in text): look in all of them, the last record
+ * for pair (section, name) win.
+ * sect_off_ret: the last section with this name or INI_OFFSET_INVALID. */
+static size_t
+ini_val_find__int(const ini_p ini, const int casei,
+    const uint8_t *sect_name, const size_t sect_name_size,
+    const uint8_t *val_name, const size_t val_name_size,
+    size_t *sect_off_ret) {
+	size_t i = 0, name_size, val_off, found = INI_OFFSET_INVALID;
+	const uint8_t *name;
+
+	(*sect_off_ret) = INI_OFFSET_INVALID;
+	if (NULL == ini || NULL == sect_name)
+		return (INI_OFFSET_INVALID);
+	while (0 == ini_sect_enum(ini, &i, &name, &name_size)) {
+		if (0 == ((0 != casei) ?
+		    mem_cmpin(name, name_size, sect_name, sect_name_size) :
+		    mem_cmpn(name, name_size, sect_name, sect_name_size))) {
+			(*sect_off_ret) = i;
+			val_off = ((0 != casei) ?
+			    ini_sect_val_findi(ini, i, val_name, val_name_size) :
+			    ini_sect_val_find(ini, i, val_name, val_name_size));
+			if (INI_OFFSET_INVALID != val_off) {
+				found = val_off;
+			}
+		}
+		i ++;
+	}
+
+	return (found);
+}
 
 int
 ini_val_get(const ini_p ini,
@@ -422,14 +456,11 @@ ini_val_get(const ini_p ini,
 		_val_name_size = strlen((const char*)val_name);
 	}
 
-	/* Look for section. */
-	sect_off = ini_sect_find(ini, sect_name, _sect_name_size);
-	if (INI_OFFSET_INVALID == sect_off)
-		return (ENOENT); /* No section. */
-	/* Look for value. */
-	val_off = ini_sect_val_find(ini, sect_off, val_name, _val_name_size);
+	/* Look for section and value. */
+	val_off = ini_val_find__int(ini, 0, sect_name, _sect_name_size,
+	    val_name, _val_name_size, &sect_off);
 	if (INI_OFFSET_INVALID == val_off)
-		return (ENOENT); /* No value in section. */
+		return (ENOENT); /* No section / no value in section. */
 	(*val) = ini->lines[val_off]->val;
 	(*val_size) = ini->lines[val_off]->val_size;
 
@@ -493,14 +524,11 @@ ini_vali_get(const ini_p ini,
 		_val_name_size = strlen((const char*)val_name);
 	}
 
-	/* Look for section. */
-	sect_off = ini_sect_findi(ini, sect_name, _sect_name_size);
-	if (INI_OFFSET_INVALID == sect_off)
-		return (ENOENT); /* No section. */
-	/* Look for value. */
-	val_off = ini_sect_val_findi(ini, sect_off, val_name, _val_name_size);
+	/* Look for section and value. */
+	val_off = ini_val_find__int(ini, 1, sect_name, _sect_name_size,
+	    val_name, _val_name_size, &sect_off);
 	if (INI_OFFSET_INVALID == val_off)
-		return (ENOENT); /* No value in section. */
+		return (ENOENT); /* No section / no value in section. */
 	(*val) = ini->lines[val_off]->val;
 	(*val_size) = ini->lines[val_off]->val_size;
 
@@ -565,9 +593,24 @@ ini_val_set(const ini_p ini,
 	if (0 == val_name_size && NULL != val_name) {
 		_val_name_size = strlen((const char*)val_name);
 	}
+	/* Names that can not be found / text that can not be parsed back. */
+	if (NULL == sect_name || NULL == val_name)
+		return (EINVAL);
+	if (NULL != mem_chr(sect_name, _sect_name_size, '\n') ||
+	    NULL != mem_chr(sect_name, _sect_name_size, '\r') ||
+	    NULL != mem_chr(val_name, _val_name_size, '\n') ||
+	    NULL != mem_chr(val_name, _val_name_size, '\r') ||
+	    NULL != mem_chr(val_name, _val_name_size, '=') ||
+	    (0 != _val_name_size &&
+	     (';' == val_name[0] || '#' == val_name[0] || '[' == val_name[0])) ||
+	    (0 != val_size &&
+	     (NULL != mem_chr(val, val_size, '\n') ||
+	      NULL != mem_chr(val, val_size, '\r'))))
+		return (EINVAL);
 
-	/* Look for section. */
-	sect_off = ini_sect_find(ini, sect_name, _sect_name_size);
+	/* Look for section and value. */
+	val_off = ini_val_find__int(ini, 0, sect_name, _sect_name_size,
+	    val_name, _val_name_size, &sect_off);
 	if (INI_OFFSET_INVALID == sect_off) { /* No section, add. */
 		/* Alloc line for section. */
 		line = ini_line_alloc__int((_sect_name_size + 2));
@@ -595,8 +638,6 @@ ini_val_set(const ini_p ini,
 
 	data_size = (_val_name_size + 1 + val_size);
 
-	/* Look for value. */
-	val_off = ini_sect_val_find(ini, sect_off, val_name, _val_name_size);
 	if (INI_OFFSET_INVALID == val_off) { /* No value in section, add. */
 		/* Add line to array. */
 		error = realloc_items((void**)&ini->lines,
